@@ -256,12 +256,13 @@ def gen_lex_file(r):
     for i in range(r.range(3, 9)):
         f = r.pick(forms)
         out.append(f.replace("%d", str(i)))
-    if r.below(3) == 0:
+    if r.below(2) == 0:
         # many numeric literals in one file, in every spelling (leading zeros on floating constants included: 08.5 is a double)
         pool = ["00.5", "07e1", "03.5f", "08.5", "09e0", "0129.0", "000.125L", "1e+5", "1.e5", ".5e-3", "0x1.8p3", "0X1P-2", "1e5f", "1e5L", "0b101", "0777", "0xFFu", "1ul",
                 "1lu", "1LL", "1uLL", "0.0", "0e0", "1.", "1.f", "5e-1", "4.9e-324", "1e309", "0x1p1023", "017", "0", "00", "0x0", "1e-5000L", "123456789012345678901.0"]
+        fav = r.pick(pool)      # one spelling dominates the file now and then
         for i in range(r.pick([10, 25, 60])):
-            lit = r.pick(pool)
+            lit = fav if r.below(3) == 0 else r.pick(pool)
             out.append("%s n%d = %s;" % ("long double" if lit.endswith("L") and "." in lit or "e" in lit.lower() and not lit.lower().startswith("0x") and lit[-1] in "lL" else
                                           "double" if any(c in lit.lower() for c in ".ep") and not lit.lower().startswith("0b") and not (lit.lower().startswith("0x") and "p" not in lit.lower()) else "long", 100 + i, lit))
     if r.below(2):
